@@ -495,7 +495,7 @@ func (f *Flow) evalStruct(t *Term, env Env, fl *evalFlags) ISet {
 		b := f.eval(t.B, env, fl)
 		switch t.Op {
 		case token.EQL, token.NEQ, token.LSS, token.LEQ, token.GTR, token.GEQ:
-			return mkSet(0, 1)
+			return cmpSets(t.Op, a, b)
 		}
 		if a == nil || b == nil || a.Empty() || b.Empty() {
 			return f.top(t.T)
